@@ -12,6 +12,7 @@ series, parallel, and feedback functions.
 
 """
 
+from copy import deepcopy
 from functools import reduce
 from warnings import warn
 
@@ -94,7 +95,10 @@ def series(*sys, **kwargs):
     (2, 1, 5)
 
     """
-    sys = reduce(lambda x, y: y * x, sys[1:], sys[0])
+    syslist = sys
+    sys = reduce(lambda x, y: y * x, syslist[1:], syslist[0])
+    if sys is syslist[0]:
+        sys = deepcopy(sys)     # single system: do not rename the argument
     sys.update_names(**kwargs)
     return sys
 
@@ -167,7 +171,10 @@ def parallel(*sys, **kwargs):
     (3, 4, 7)
 
     """
-    sys = reduce(lambda x, y: x + y, sys[1:], sys[0])
+    syslist = sys
+    sys = reduce(lambda x, y: x + y, syslist[1:], syslist[0])
+    if sys is syslist[0]:
+        sys = deepcopy(sys)     # single system: do not rename the argument
     sys.update_names(**kwargs)
     return sys
 
@@ -369,6 +376,8 @@ def append(*sys, **kwargs):
     s1 = sys[0]
     for s in sys[1:]:
         s1 = s1.append(s)
+    if s1 is sys[0]:
+        s1 = deepcopy(s1)       # single system: do not rename the argument
     s1.update_names(**kwargs)
     return s1
 
